@@ -336,7 +336,9 @@ def run(ctx: Ctx) -> None:
                 m_ = re.match(rf".*?:(\d+):(\d+) \[{prefix}{nid}\]", l)
                 if m_:
                     got_pos.add((int(m_.group(1)), int(m_.group(2)) - 1))
-            want_pos = {q for q in set().union(*[occ.get(c, set()) for c in sel]) if q[0] >= 1} if sel else set()      # nodes mypy synthesises carry no position
+            silenced = {k_ + 1 for k_, l_ in enumerate(probe.read_text().split("\n")) if "# noqa" in l_}          # the probe file silences some of its lines itself
+            want_pos = {q for q in set().union(*[occ.get(c, set()) for c in sel]) if q[0] >= 1 and q[0] not in silenced} if sel else set()      # nodes mypy synthesises carry no position
+            got_pos = {q for q in got_pos if q[0] not in silenced}
             if got_pos != want_pos:
                 missing, extra_ = sorted(want_pos - got_pos)[:5], sorted(got_pos - want_pos)[:5]
                 by_cls = {c: len(occ.get(c, set())) for c in sel}
